@@ -14,7 +14,7 @@ from cisco_acl import Ace, AceGroup, Acl, Address, AddressAg, AddrGroup, Remark
 from . import gen
 from .aclobs import (alpha_attr, alpha_text, fastcopy, leaves, make_twin, norm,
                      text_projection)
-from .aclops import STATE_FREE, perform
+from .aclops import STATE_FREE, member_objs, perform
 from .aclref import SEQ_MAX, Expect, apply_model, needs_split, split_rule
 from .core import Machine, Streams, Violation
 from .model import (AclM, Block, Reader, ReadError, Rule, first_match, group_blocks, rule_covers,
@@ -384,7 +384,7 @@ class AclMachine(Machine):
             if isinstance(leaf, Ace):
                 for addr in (leaf.srcaddr, leaf.dstaddr):
                     if addr.type == "addrgroup" and addr.addrgroup in members:
-                        addr.items = list(members[addr.addrgroup])
+                        addr.items = member_objs(acl, members[addr.addrgroup])
         m = AclM(name=name, type=t_, platform=platform, version=version, port_nr=op["port_nr"],
                  protocol_nr=op["protocol_nr"], indent=op["indent"], group_by=op["group_by"])
         if op["group_by"]:
@@ -498,25 +498,15 @@ class AclMachine(Machine):
                                                    f"---\n{new.line}")
             slot["acl"] = new
             acl = new
-        # -- twin differential
-        if twin is not None and k not in ("copy", "export_import"):
-            if terr is not None:
-                self._fail("C17", "C17.twin-outcome",
-                           f"{k}: aged object returned, fresh twin raised "
-                           f"{type(terr).__name__}: {terr}", opkind=k)
-            if acl.line != twin.line:
-                self._fail("C17", "C17.twin-text",
-                           f"{k} {self._brief(op)}: effect depends on history.\naged:\n{acl.line}"
-                           f"\ntwin:\n{twin.line}", opkind=k)
-            if norm(acl.data()) != norm(twin.data()):
-                self._fail("C17", "C17.twin-data",
-                           f"{k} {self._brief(op)}: data() differs between aged object and twin "
-                           f"after the same op: {self._dict_diff(norm(acl.data()), norm(twin.data()))}",
-                           opkind=k)
-            if norm(res) != norm(tres):
-                self._fail("C17", "C17.twin-result", f"{k}: return value {res!r} != twin {tres!r}",
-                           opkind=k)
-            self.probes["twin_checked"] += 1
+        # -- twin differential (owned by C17; in the run of another property its failure is
+        #    deferred until that property's own oracles had their say on this step)
+        pending = None
+        try:
+            self._twin_differential(k, op, acl, twin, terr, res, tres)
+        except Violation as v:
+            if self.prop == "C17":
+                raise
+            pending = v
         # -- op-specific owned oracles (before the model is advanced)
         m2 = exp.model
         if k == "resequence":
@@ -552,12 +542,36 @@ class AclMachine(Machine):
             slot["age"] = 0
         self.check_state(slot, f"after {k} {self._brief(op)}", owner=owner, op=op)
         self._count_owned(owner)
+        if pending is not None:
+            raise pending
         if k in ("set_platform", "flip3") and op["p"] == "nxos" and m.platform == "ios" \
                 and any(needs_split(r) for r in m.flat()):
             # the implicit split of the conversion is C19's clause (after C02's own refinement)
             self._oracle_ungroup_ports(slot, dict(op="ungroup_ports"), m, pre_leaves,
                                        identity=False)
         return "ok"
+
+
+    def _twin_differential(self, k, op, acl, twin, terr, res, tres):
+        if twin is None or k in ("copy", "export_import"):
+            return
+        if terr is not None:
+            self._fail("C17", "C17.twin-outcome",
+                       f"{k}: aged object returned, fresh twin raised "
+                       f"{type(terr).__name__}: {terr}", opkind=k)
+        if acl.line != twin.line:
+            self._fail("C17", "C17.twin-text",
+                       f"{k} {self._brief(op)}: effect depends on history.\naged:\n{acl.line}"
+                       f"\ntwin:\n{twin.line}", opkind=k)
+        if norm(acl.data()) != norm(twin.data()):
+            self._fail("C17", "C17.twin-data",
+                       f"{k} {self._brief(op)}: data() differs between aged object and twin "
+                       f"after the same op: "
+                       f"{self._dict_diff(norm(acl.data()), norm(twin.data()))}", opkind=k)
+        if norm(res) != norm(tres):
+            self._fail("C17", "C17.twin-result", f"{k}: return value {res!r} != twin {tres!r}",
+                       opkind=k)
+        self.probes["twin_checked"] += 1
 
     @staticmethod
     def _brief(op):
@@ -1157,8 +1171,20 @@ class AclMachine(Machine):
                 return dict(op="memo_pressure", n=s.choice([5, 60, 140]))
             kinds = sorted(cfg["weights"])
             kind = s.choices(kinds, weights=[cfg["weights"][k] for k in kinds])[0]
+        plan = getattr(self, "_plan", [])
+        if plan:
+            # follow-up of a query: change what the query depended on, then ask again
+            t, kind, fixed = plan.pop(0)
+            op = self._gen_op(kind, self.slots[t % len(self.slots)], st)
+            op.update(fixed)
+            op["t"] = t
+            op["memo"] = self._memo_schedule(st)
+            return op
         t = s.randrange(len(self.slots))
         op = self._gen_op(kind, self.slots[t], st)
+        if kind in ("shading", "shadow_of") and s.random() < 0.6 and any(
+                r.kind == "ace" and (r.src.group or r.dst.group) for r in self.slots[t]["m"].flat()):
+            self._plan = [(t, "set_members", {}), (t, "shadow_triple", {"skip": op["skip"]})]
         op["t"] = t
         op["memo"] = self._memo_schedule(st)
         return op
